@@ -237,7 +237,69 @@ func runUArr(hdr Header, c any, src string) CaseResult {
 	}
 	res.Nontrivial = sawT && sawF
 	res.Sample = map[string]any{"instance": describe(v), "schemas": len(exp)}
+	goShapedOnce.Do(func() { goShapedUnique(&res, src, c) })
 	return res
+}
+
+// C12 read as a relation between the package's own operations, on elements no JSON decoding produces (struct values
+// with skipped, unexported and pointer fields, nested in maps and slices): [x, y] passes uniqueItems exactly when
+// Equal(x, y) is false, and [y] passes const / enum [x] exactly when Equal(x, y) is true.  No prediction is involved:
+// whatever Equal says about two such values, the three keywords must say the same.  (Once per process, reported
+// with the first case.)
+var goShapedOnce sync.Once
+
+type oddS struct {
+	A      int
+	B      string `json:"b"`
+	Hidden int    `json:"-"`
+	priv   int
+	P      *int
+	M      map[string]any
+}
+
+func goShapedUnique(res *CaseResult, src string, c any) {
+	one, uno := 1, 1
+	pool := []any{
+		oddS{A: 1}, oddS{A: 1, Hidden: 2}, oddS{A: 1, priv: 3}, oddS{A: 2}, oddS{A: 1, B: "b"}, &oddS{A: 1}, oddS{A: 1, P: &one}, oddS{A: 1, P: &uno},
+		oddS{A: 1, M: map[string]any{}}, oddS{A: 1, M: map[string]any{"k": oddS{Hidden: 1}}}, oddS{A: 1, M: map[string]any{"k": oddS{Hidden: 2}}},
+		struct{ X float64 }{1}, struct{ X int }{1}, struct{ X any }{1.0}, struct{ X any }{json.Number("1")},
+		map[string]any{"k": []any{oddS{A: 1}}}, map[string]any{"k": []any{oddS{A: 1, Hidden: 9}}}, []oddS{{A: 1}}, []any{oddS{A: 1, Hidden: 7}},
+	}
+	uniq := &jsonschema.Schema{UniqueItems: true}
+	urs, err := uniq.Resolve(nil)
+	if err != nil {
+		return
+	}
+	for i, x := range pool {
+		for j, y := range pool {
+			eq := jsonschema.Equal(x, y)
+			report := func(kw string, got bool, want bool) {
+				res.Failures = append(res.Failures, Failure{Kind: "verdict-vs-equal", Source: src, Abstract: c,
+					Concrete: map[string]any{"keyword": kw, "x": fmt.Sprintf("%#v", x), "y": fmt.Sprintf("%#v", y), "Equal(x, y)": eq, "pool_indexes": []int{i, j}},
+					Expected: map[string]any{"valid": want}, Got: map[string]any{"valid": got},
+					Replay: map[string]any{"hdr": map[string]any{"SCHEMAS": []any{}}, "case": map[string]any{"v": abs.Obj(c)["v"], "exp": []any{}}}})
+			}
+			for rep := 0; rep < 4; rep++ {
+				res.Evals++
+				if got := urs.Validate([]any{x, y}) == nil; got != !eq {
+					report("uniqueItems on [x, y]", got, !eq)
+					return
+				}
+			}
+			var cv any = []any{x}
+			for kw, sch := range map[string]*jsonschema.Schema{"const [x] on [y]": {Const: &cv}, "enum [[x], 7] on [y]": {Enum: []any{[]any{x}, 7.0}}} {
+				rs, err := sch.Resolve(nil)
+				if err != nil {
+					continue
+				}
+				res.Evals++
+				if got := rs.Validate([]any{y}) == nil; got != eq {
+					report(kw, got, eq)
+					return
+				}
+			}
+		}
+	}
 }
 
 // Family "repval": CASE {"s": schema, "exp": [...]} against header VS (represented values).
@@ -304,7 +366,7 @@ func runRepVal(hdr Header, c any, src string) CaseResult {
 			res.Failures = append(res.Failures, Failure{Kind: "validate-modifies-instance", Source: src, Abstract: []any{cm["s"], vs[j]},
 				Concrete: map[string]any{"schema": json.RawMessage(text), "instance_before": before, "denotes": json.RawMessage(abs.DenJSON(vs[j]))},
 				Expected: "the instance is unchanged after Validate", Got: after,
-				Replay:   map[string]any{"hdr": map[string]any{"VS": []any{vs[j]}}, "case": map[string]any{"s": cm["s"], "exp": []any{e}}}})
+				Replay: map[string]any{"hdr": map[string]any{"VS": []any{vs[j]}}, "case": map[string]any{"s": cm["s"], "exp": []any{e}}}})
 			if len(res.Failures) >= 4 {
 				break
 			}
